@@ -110,4 +110,22 @@ example : DSV.History.OpsOk init hx := by decide +kernel
 example : (DSV.History.run hx).md.ids = [2] ∧ content (DSV.History.run hx) 2 = some [0, 1, 2] ∧ (DSV.History.run hx).md.cur = P.id 2 := by
   decide +kernel
 
+/-! ### the monotone-clock hypothesis of `lookup_by_timestamp_hist` is needed (open finding) -/
+
+/-- **lookup_by_timestamp_stepback_refuted** — the model (and the library: replayed by the check, listed in known_findings.json)
+when the wall clock steps BACK between two commits: snapshot 1 is committed at t = 105, snapshot 2 — the current one — at t = 100.
+Both are "not newer than" 200 and 2 is the most recently committed, yet the lookup returns 1: the lookup orders by timestamp, and
+nothing forces a snapshot's timestamp above its predecessors' (unlike `last_updated_ms`, repaired for C01). -/
+theorem lookup_by_timestamp_stepback_refuted :
+    DSV.History.OpsOk init [.commit 105 1 none 1 [], .commit 100 2 none 1 []] ∧
+    (DSV.History.run [.commit 105 1 none 1 [], .commit 100 2 none 1 []]).md.cur = P.id 2 ∧
+    ((DSV.History.run [.commit 105 1 none 1 [], .commit 100 2 none 1 []]).md.snaps.map (fun x => (x.id, x.ts, x.born))) = [(1, 105, 0), (2, 100, 1)] ∧
+    (byTime 200 (DSV.History.run [.commit 105 1 none 1 [], .commit 100 2 none 1 []]).md).map (·.id) = some 1 := by
+  refine ⟨by decide +kernel, by decide +kernel, by decide +kernel, ?_⟩
+  have h : (DSV.History.run [.commit 105 1 none 1 [], .commit 100 2 none 1 []]).md.snaps =
+      [⟨1, 105, 1, P.root, 0, P.root⟩, ⟨2, 100, 2, P.id 1, 1, P.id 1⟩] := by decide +kernel
+  unfold byTime sortByTs
+  rw [h]
+  simp [List.mergeSort, List.MergeSort.Internal.splitInTwo]
+
 end DSV.Props.C09
